@@ -641,3 +641,18 @@ impl Receiver {
         self.objects.insert(*toi, obj);
     }
 }
+
+#[cfg(feature = "verif")]
+impl Receiver {
+    /// Memory related counters (verification hook)
+    pub fn verif_stats(&self) -> crate::verif::ReceiverStats {
+        crate::verif::ReceiverStats {
+            tsi: self.tsi,
+            objects: self.objects.values().map(|o| o.verif_stats()).collect(),
+            objects_completed: self.objects_completed.len(),
+            objects_error: self.objects_error.len(),
+            fdt_receivers: self.fdt_receivers.len(),
+            fdt_current: self.fdt_current.len(),
+        }
+    }
+}
